@@ -1704,6 +1704,11 @@ pub mod missed {
             base,
         }
     }
+
+    /// `utils::unicode_str_width` (what `last_line_width(&self.buffer)` measures with).
+    pub fn str_width(s: &str) -> usize {
+        crate::utils::unicode_str_width(s)
+    }
 }
 
 /// Every method of `shape.rs` with plain integers: an `Indent` is `(block_indent, alignment)`,
